@@ -360,7 +360,11 @@ func (s *SwapService) OnTxConfirmed(swapId string, txHex string, gotErr error) e
 
 	// First check if we got an error!
 	if gotErr != nil {
+		// The swap data belongs to the state machine: other events of this
+		// swap may be processed (and the data persisted) at the same time.
+		swap.mutex.Lock()
 		swap.Data.LastErr = err
+		swap.mutex.Unlock()
 		log.Infof("[%s]: got an error from the txwatcher, cancel swap: %v", swapId, err)
 		done, _ := swap.SendEvent(Event_ActionFailed, nil)
 		if done {
@@ -369,7 +373,9 @@ func (s *SwapService) OnTxConfirmed(swapId string, txHex string, gotErr error) e
 	}
 
 	// todo move to eventctx
+	swap.mutex.Lock()
 	swap.Data.OpeningTxHex = txHex
+	swap.mutex.Unlock()
 	done, err := swap.SendEvent(Event_OnTxConfirmed, nil)
 	if err == ErrEventRejected {
 		return nil
